@@ -3,7 +3,7 @@
    `aq` is the exact quantity of an amount, `bden`/`den` the exact quantity a balance /
    value holds per commodity; `cp` is the commodity pool's display precision, `ord` the
    (unspecified) hash-table insertion order - every statement holds for all of them. *)
-From LedgerV Require Import Base.Prelude Base.Round Model.Amount Proofs.AmountProofs Proofs.CompareProofs.
+From LedgerV Require Import Base.Prelude Base.Round Model.Amount Proofs.AmountProofs Proofs.CompareProofs Gen.SourceGuards.
 From Coq Require Import Qabs.
 Local Open Scope Q_scope.
 
@@ -228,3 +228,10 @@ Proof.
   - split; [vm_compute; reflexivity | reflexivity].
 Qed.
 Print Assumptions balance_equality_counts_cancelled_components_refuted.
+
+(* the tie to the source by translation: the lines of /repo/src this model transcribes (harness/translators/src_guards.py
+   lists them, with the function each is looked for in) are still there, in the same order, in the source as it is NOW -
+   coq/Gen/SourceGuards.v is regenerated on every run and names the guards that are false *)
+Theorem model_transcribes_current_source : forallb (fun b => b) src_guards_C03 = true.
+Proof. vm_compute. reflexivity. Qed.
+Print Assumptions model_transcribes_current_source.
